@@ -716,7 +716,7 @@ def replay(data):
 
 
 def check(run):
-  timeout = 30.0 if run.tier == 'quick' else 120.0
+  timeout = 90.0 if run.tier == 'quick' else 300.0
   thorough = run.tier == 'thorough'
   run.functions += ['agnostic_fed_avg.agnostic_federated_averaging(...).apply / update_domain_weights', 'apfl...apply/client_step',
                     'hyp_cluster.maximization_step/_cluster_assignment/expectation_step/apply', 'mime_lite.mime_lite(...).apply + tree_clip_by_global_norm',
